@@ -1,3 +1,15 @@
 import TephraProps.C13
 #print axioms Tephra.Props.C13_one_reports_offender
 #print axioms Tephra.Props.C13_any_reports_lookahead
+#print axioms Tephra.Props.C13_spans_from_lexer
+#print axioms Tephra.Props.C13_spans_from_new
+#print axioms Tephra.Props.C13_enclosing_start_le_end
+#print axioms Tephra.Props.C13_start_le_end
+#print axioms Tephra.Props.C13_one_unexpected
+#print axioms Tephra.Props.C13_any_unexpected
+#print axioms Tephra.Props.C13_anyIndex_unexpected
+#print axioms Tephra.Props.C13_seq_unexpected
+#print axioms Tephra.Props.C13_pred_unexpected
+#print axioms Tephra.Props.C13_endOfText_unexpected
+#print axioms Tephra.Props.C13_leaf_unexpected
+#print axioms Tephra.Props.one_fails
